@@ -459,3 +459,132 @@ def desugar_option_calls(db, body):
     nb = dict(body)
     nb["mir"] = mir
     return nb
+
+
+RANGE_NEW = {"core::ops::RangeInclusive::<Idx>::new": True}
+RANGE_CONTAINS = {"core::ops::RangeInclusive::<Idx>::contains": True, "core::ops::Range::<Idx>::contains": False}
+
+
+def desugar_range_calls(db, body):
+    """`RangeInclusive::new(a, b)` rewritten as the struct literal it is and `(a..=b).contains(&x)` / `(a..b).contains(&x)` on integers as the
+    two comparisons they are (`a <= x` and then `x <= b` resp. `x < b`, as control flow), so an interval test written with `contains` is the same
+    code to the rules as one written with comparisons. Only integer index types (the library bodies are `PartialOrd` on the items; for the
+    primitive integers that is the built-in comparison) and only ranges that have not been iterated (a fresh `RangeInclusive` is not exhausted)."""
+    mir = None
+    ints = ("usize", "u8", "u16", "u32", "u64", "u128", "isize", "i8", "i16", "i32", "i64", "i128")
+    for bi, blk0 in enumerate(body["mir"]["blocks"]):
+        t0 = blk0["term"]
+        if not (t0["k"] == "call" and t0["f"].get("k") == "fn" and (t0["f"]["def"] in RANGE_NEW or t0["f"]["def"] in RANGE_CONTAINS) and not blk0["cleanup"] and t0.get("target") is not None):
+            continue
+        targs = [a for a in t0["f"].get("args", []) if a.get("k") != "region"]
+        if not targs or any(a.get("k") != "prim" or a.get("n") not in ints for a in targs):
+            continue
+        if mir is None:
+            mir = copy.deepcopy(body["mir"])
+        blocks, locs = mir["blocks"], mir["locals"]
+        blk = blocks[bi]
+        t = blk["term"]
+        idx = targs[0]
+        boolty = {"k": "prim", "n": "bool"}
+
+        def cbool(v):
+            return {"k": "const", "ty": boolty, "c": {"k": "int", "v": v, "size": 1}, "s": "true" if v else "false"}
+        if t["f"]["def"] in RANGE_NEW:
+            blk["stmts"].append({"k": "assign", "lhs": copy.deepcopy(t["dest"]), "at": t.get("at"),
+                                 "rv": {"k": "agg", "ak": "Adt", "x": {"def": "core::ops::RangeInclusive", "variant": 0, "args": [idx], "active": None},
+                                        "ops": [copy.deepcopy(t["args"][0]), copy.deepcopy(t["args"][1]), cbool(0)]}})
+            blk["term"] = {"k": "goto", "target": t["target"], "at": t.get("at"), "exp": t.get("exp")}
+            continue
+        inclusive = RANGE_CONTAINS[t["f"]["def"]]
+        r, x = t["args"][0], t["args"][1]
+        if r.get("k") not in ("move", "copy") or x.get("k") not in ("move", "copy"):
+            continue
+
+        def fld(op, i):
+            return {"k": "copy", "p": {"l": op["p"]["l"], "p": list(op["p"]["p"]) + ["*", {"f": i, "ty": idx}]}}
+        xv = {"k": "copy", "p": {"l": x["p"]["l"], "p": list(x["p"]["p"]) + ["*"]}}
+        locs.append({"ty": boolty, "s": "bool"})
+        l1 = len(locs) - 1
+        locs.append({"ty": boolty, "s": "bool"})
+        l2 = len(locs) - 1
+
+        def out(v):
+            blocks.append({"cleanup": False, "stmts": [{"k": "assign", "lhs": copy.deepcopy(t["dest"]), "rv": {"k": "use", "op": cbool(v)}, "at": t.get("at")}],
+                           "term": {"k": "goto", "target": t["target"], "at": t.get("at"), "exp": t.get("exp")}, "inl": "desugar"})
+            return len(blocks) - 1
+        bt, bf = out(1), out(0)
+        blocks.append({"cleanup": False, "stmts": [{"k": "assign", "lhs": {"l": l2, "p": []}, "rv": {"k": "bin", "op": "Le" if inclusive else "Lt", "a": xv, "b": fld(r, 1)}, "at": t.get("at")}],
+                       "term": {"k": "switch", "discr": {"k": "move", "p": {"l": l2, "p": []}}, "targets": [[0, bf]], "otherwise": bt, "at": t.get("at"), "exp": t.get("exp")}, "inl": "desugar"})
+        b2 = len(blocks) - 1
+        blk["stmts"].append({"k": "assign", "lhs": {"l": l1, "p": []}, "rv": {"k": "bin", "op": "Le", "a": fld(r, 0), "b": copy.deepcopy(xv)}, "at": t.get("at")})
+        blk["term"] = {"k": "switch", "discr": {"k": "move", "p": {"l": l1, "p": []}}, "targets": [[0, bf]], "otherwise": b2, "at": t.get("at"), "exp": t.get("exp")}
+    if mir is None:
+        return body
+    nb = dict(body)
+    nb["mir"] = mir
+    return nb
+
+
+def desugar_result_map(db, body):
+    """`res.map(|x| e)` with a closure literal rewritten as the `match res { Ok(x) => Ok(e), Err(err) => Err(err) }` it is."""
+    mir = None
+    for bi, blk0 in enumerate(body["mir"]["blocks"]):
+        t0 = blk0["term"]
+        if not (t0["k"] == "call" and t0["f"].get("k") == "fn" and t0["f"]["def"] == "core::result::Result::<T, E>::map" and not blk0["cleanup"] and t0.get("target") is not None):
+            continue
+        src_locs = (mir or body["mir"])["locals"]
+        res, clop = t0["args"][0], t0["args"][1]
+        if res.get("k") not in ("move", "copy") or clop.get("k") not in ("move", "copy") or clop["p"]["p"]:
+            continue
+        cty = src_locs[clop["p"]["l"]]["ty"]
+        cb = db.by_path.get(cty["def"]) if cty.get("k") == "closure" else None
+        if cb is None or cb["mir"]["arg_count"] != 2:
+            continue
+        targs = [a for a in t0["f"].get("args", []) if a.get("k") != "region"]
+        if len(targs) < 2:
+            continue
+        if mir is None:
+            mir = copy.deepcopy(body["mir"])
+        blocks, locs = mir["blocks"], mir["locals"]
+        blk = blocks[bi]
+        t = blk["term"]
+        T_, E_ = targs[0], targs[1]
+        U_ = cb["mir"]["locals"][0]["ty"]
+        resp = t["args"][0]["p"]
+        unwind = t["unwind"]["cleanup"] if isinstance(t.get("unwind"), dict) else None
+        at = t.get("at")
+        rx = {"def": "core::result::Result", "args": [U_, E_], "active": None}
+        # Err arm
+        err_payload = {"l": resp["l"], "p": list(resp["p"]) + [{"down": 1}, {"f": 0, "ty": E_}]}
+        blocks.append({"cleanup": False, "stmts": [{"k": "assign", "lhs": copy.deepcopy(t["dest"]), "at": at,
+                                                    "rv": {"k": "agg", "ak": "Adt", "x": dict(rx, variant=1), "ops": [{"k": "move", "p": err_payload}]}}],
+                       "term": {"k": "goto", "target": t["target"], "at": at, "exp": t.get("exp")}, "inl": "desugar"})
+        err_i = len(blocks) - 1
+        # Ok arm: closure body spliced, its result wrapped in Ok
+        locs.append({"ty": U_, "s": "map-result"})
+        lt = len(locs) - 1
+        blocks.append({"cleanup": False, "stmts": [{"k": "assign", "lhs": copy.deepcopy(t["dest"]), "at": at,
+                                                    "rv": {"k": "agg", "ak": "Adt", "x": dict(rx, variant=0), "ops": [{"k": "move", "p": {"l": lt, "p": []}}]}}],
+                       "term": {"k": "goto", "target": t["target"], "at": at, "exp": t.get("exp")}, "inl": "desugar"})
+        wrap_i = len(blocks) - 1
+        cm = copy.deepcopy(cb["mir"])
+        off_l, off_b = _splice(blocks, locs, cm, {"l": lt, "p": []}, wrap_i, unwind, at, cb["key"])
+        env_ty = cm["locals"][1]["ty"] if len(cm["locals"]) > 1 else None
+        binds = []
+        if env_ty is not None and env_ty.get("k") == "ref":
+            binds.append({"k": "assign", "lhs": {"l": off_l + 1, "p": []}, "rv": {"k": "ref", "mut": bool(env_ty.get("mut")), "bk": "Shared", "p": copy.deepcopy(clop["p"])}, "at": at})
+        else:
+            binds.append({"k": "assign", "lhs": {"l": off_l + 1, "p": []}, "rv": {"k": "use", "op": copy.deepcopy(clop)}, "at": at})
+        ok_payload = {"l": resp["l"], "p": list(resp["p"]) + [{"down": 0}, {"f": 0, "ty": T_}]}
+        binds.append({"k": "assign", "lhs": {"l": off_l + 2, "p": []}, "rv": {"k": "use", "op": {"k": "move", "p": ok_payload}}, "at": at})
+        blocks.append({"cleanup": False, "stmts": binds, "term": {"k": "goto", "target": off_b, "at": at, "exp": t.get("exp")}, "inl": "desugar"})
+        ok_i = len(blocks) - 1
+        locs.append({"ty": {"k": "prim", "n": "isize"}, "s": "isize"})
+        ld = len(locs) - 1
+        blk["stmts"].append({"k": "assign", "lhs": {"l": ld, "p": []}, "rv": {"k": "discr", "p": copy.deepcopy(resp)}, "at": at})
+        blk["term"] = {"k": "switch", "discr": {"k": "move", "p": {"l": ld, "p": []}}, "targets": [[0, ok_i]], "otherwise": err_i, "at": at, "exp": t.get("exp")}
+    if mir is None:
+        return body
+    nb = dict(body)
+    nb["mir"] = mir
+    return nb
